@@ -250,6 +250,9 @@ func master(ck Check, tier string, seed int64, only string) int {
 	if budget == 0 {
 		budget = 10 * time.Minute
 	}
+	if v, err := strconv.Atoi(os.Getenv("VERIF_BUDGET_S")); err == nil && v > 0 {
+		budget = time.Duration(v) * time.Second // smoke runs of the thorough tier
+	}
 	deadline := start.Add(budget)
 	parts := ck.Parts(tier)
 	var jobs []job
